@@ -30,6 +30,27 @@ CLAIMED = {
  "C18": dict(engine="E1 counting oracle", technique="worst case over the complete oracle choice tree against the per-component bound",
    text="For every connected framework with <=3 arguments (complete choice tree), all U(<=2)+U(<=2) unions (sum of component bounds), connected members of S (D<=1/2) and thorough connected U(4) (D<=1): the maximum number of SAT calls over ALL oracle behaviours is compared with the property's bound computed from the reference model; a counting oracle aborts at bound+2 so divergence is a finite counter-example; no candidate handed twice (PR) / more than twice (ID) to one solver object.",
    note="bound formulas are the property's own; disconnected frameworks only checked against the implied sum", ref="4 C18"),
+ "C10": dict(engine="E3 + all-SAT", technique="exhaustive enumeration of all models of every generated CNF over all small frameworks",
+   text="For every labelled digraph with <=4 arguments, sparse 5-argument iso-classes and a hybrid-threshold family (both sides of the switch observed), and every public encoder (7 constructors + the 2 default factories) x {plain, range}: the CNF is captured by a recording solver and ALL its models are enumerated by the harness all-SAT; projected model set = reference family (both inclusions), range soundness/completeness, variable layout, assignment_to_extension on every model; encoder objects re-used across frameworks.",
+   note="trusted: harness all-SAT (self-checked), reference families; compact ids only, as the property states", ref="4 C10"),
+ "C12": dict(engine="E2 stateful BFS", technique="explicit-state BFS over update histories with deduplication on the full concrete state",
+   text="Stateful breadth-first exploration of AAFramework<usize> and AAFramework<String> over 2 labels (depth 11/13) and 3 labels (depth 8/9), from three constructors, every operand combination in every state; every observable compared with a set-based reference after EVERY step of every replay; rejected / redundant updates must leave the concrete state byte-identical.",
+   note="identical concrete states have identical futures (no abstraction in the dedup key); depth-bounded because ids grow", ref="4 C12"),
+ "C13": dict(engine="E3", technique="exhaustive small-scope enumeration of input byte strings with a three-zone oracle",
+   text="70 M inputs per run: all token strings (<=6/7 tokens), all line sequences (<=5/6 lines, with/without final newline), every single byte/token/line edit of a 12-file corpus, all byte strings of length <=2 (and 3 over 40 bytes), every well-formed file of U(<=3) in a layout menu, for both readers; no panic anywhere, strict-grammar files accepted faithfully (labels, ids, order, attacks), the ill-formedness classes the property lists rejected, read_arg_from_str probed.",
+   note="the harness zone classifier is the specification; CRLF, irregular spacing, duplicate declarations, exotic number spellings are unspecified on purpose", ref="4 C13, 6"),
+ "C14": dict(engine="E2+E3", technique="explicit-state exploration of framework states, each written and read back",
+   text="Every unique concrete state of AAFramework<String> reached by the store exploration over three universes of valid Aspartix identifiers is written by AspartixWriter and read back (same labels, order, attack set; output in the strict grammar); every ordered selection of <=3 arguments through both ResponseWriters is byte-compared with the answer grammar and parsed back; statuses byte-exact.",
+   note="strict Aspartix grammar of the C13 classifier defines well-formed output", ref="4 C14"),
+ "C15": dict(engine="E2", technique="bounded exhaustive exploration of solver-object histories against a truth table",
+   text="Every history of exactly 5 (thorough 6) operations ending in a solve call over a 25-operation alphabet on CadicalSolver, and of 3 (thorough 4) on ExternalSatSolver driving the stand-in program: at every solve step verdict and model are checked against a truth table over 7 variables (clauses so far, assumptions of this call only, model queryable for every declared variable, never Unknown); both backends against the same table.",
+   note="variables <= 7, <= 3 solve calls per history; external backend = harness stand-in with its own DPLL", ref="4 C15"),
+ "C16": dict(engine="E3 + E4 (spin) + conformance", technique="spin exploration of a Promela model of the pipe exchange bound to the code by a conformance grid; exhaustive reply/instance enumeration",
+   text="(1) every DIMACS instance written by static and dynamic solvers on the small universe is parsed strictly by the stand-in program; (2) every reply of <=3 (thorough 4) lines over a 17-line alphabet is interpreted and compared with a strict output-format parser; (3) models/extsat.pml: all interleavings of parent, writer thread and child over two bounded pipes for every scenario (6 child behaviours x instance x reply sizes), explored by spin for both parent orders; the 72-scenario grid is replayed on the real ExternalSatSolver under a watchdog (reply sizes around the real pipe capacity) and compared with the model of the required order; parent syscall order validated with strace.",
+   note="the OS scheduler is not controlled on the real code; interleaving coverage is on the model, binding is by outcome table + syscall order", ref="2.4, 4 C16"),
+ "C19": dict(engine="E3", technique="exhaustive small-scope enumeration against all complete extensions",
+   text="EquivalencyComputer on every labelled digraph with <=4 arguments and sparse 5-argument iso-classes, compact and duplicate-attack presentation: every pair of merged arguments compared on ALL complete extensions; partition, totality, inverse mappings, reduced labels.",
+   note="soundness of merging only; nothing demanded about coarseness", ref="4 C19"),
 }
 
 NOT_YET = {
